@@ -191,12 +191,25 @@ func vC15Component(rc *runCtx) {
 		depth := 40 + tp.Draw("deepchain.depth", 60)
 		p := src
 		files, dirs = 0, 0
+		// the levels carry different names, or all the same one (a path list that compresses very well), or
+		// long names of one repeated character
+		naming := tp.Draw("deepchain.naming", 3)
+		if naming == 2 {
+			depth = 2 + tp.Draw("deepchain.longdepth", 6)
+		}
 		for i := 0; i < depth; i++ {
 			os.MkdirAll(p, 0755)
 			vWriteFile(filepath.Join(p, fmt.Sprintf("f%d.txt", i)), []byte(fmt.Sprintf("level %d", i)))
 			files++
 			dirs++
-			p = filepath.Join(p, fmt.Sprintf("d%d", i))
+			switch naming {
+			case 0:
+				p = filepath.Join(p, fmt.Sprintf("d%d", i))
+			case 1:
+				p = filepath.Join(p, "sub")
+			default:
+				p = filepath.Join(p, strings.Repeat(string("=-_x"[i%4]), 150+tp.Draw("deepchain.longname", 60)))
+			}
 		}
 		os.MkdirAll(p, 0755)
 		var lim syscall.Rlimit
